@@ -145,6 +145,8 @@ def constructs(fn: ast.FunctionDef):
                         isinstance(y, ast.Constant) and isinstance(y.value, (int, float)) and not isinstance(y.value, bool) for y in [x.left] + x.comparators)
                     for x in ast.walk(n)):
                 out.append((n, 'value-branch', ast.unparse(n)))
+            elif nm in ('eigh', 'eigvalsh') and n.args and isinstance(n.args[0], ast.Call) and method_name(n.args[0]) in ('tril', 'triu'):
+                out.append((n, 'eigh-of-a-triangle', ast.unparse(n)))
             elif nm in ('register_hook', 'register_full_backward_hook', 'register_backward_hook'):
                 out.append((n, 'gradient-hook', ast.unparse(n)))
             elif nm == 'requires_grad_' and n.args and isinstance(n.args[0], ast.Constant) and n.args[0].value is False:
@@ -418,7 +420,7 @@ def run(ctx, rep):
                 for b in ci.mro)
         if not differentiable:
             continue
-        for tbl in (ci.methods, ci.getters):
+        for tbl in (ci.methods, ci.getters, ci.setters):
             for name, fn in tbl.items():
                 if name in SKIP_METHODS:
                     continue
@@ -459,6 +461,26 @@ def run(ctx, rep):
                 rep.bad('C12.D', key, W, {'construct': text[:100], 'kind': kind},
                         f"{qual}: `{text[:70]}` is piecewise constant: its derivative is zero, so everything the rounded value depends on stops receiving a gradient through it "
                         f"while the returned value still changes with those parameters")
+                continue
+            if kind == 'no_grad' and isinstance(node, ast.With):
+                # writing into a leaf that requires grad is only possible outside the graph: `if <p>.requires_grad: with torch.no_grad(): <in-place write>` is that case and
+                # nothing else — the same block without the test also strips the graph of values assigned to parameters that are NOT leaves requiring grad (a reparameterised
+                # draw written through a view)
+                p_, child_, guarded = getattr(node, '_parent', None), node, False
+                while p_ is not None and p_ is not fn:
+                    if isinstance(p_, ast.If) and any(child_ is b for b in p_.body) and 'requires_grad' in ast.unparse(p_.test) \
+                            and not (isinstance(p_.test, ast.UnaryOp) and isinstance(p_.test.op, ast.Not)):
+                        guarded = True
+                    child_, p_ = p_, getattr(p_, '_parent', None)
+                writes_only = all(isinstance(b, (ast.Assign, ast.AugAssign)) and all(isinstance(t, ast.Subscript) for t in (b.targets if isinstance(b, ast.Assign) else [b.target]))
+                                  for b in node.body)
+                if guarded and writes_only:
+                    rep.ok('C12.D', key, W, {'class': 'in-place write into a leaf that requires grad (guarded by a requires_grad test)'})
+                    continue
+            if kind == 'eigh-of-a-triangle':
+                rep.bad('C12.D', key, W, {'construct': text[:100], 'kind': kind},
+                        f"{qual}: `{text[:60]}`: the value is the same (eigh reads one triangle), but the derivative of eigh is written for a symmetric argument — through tril / triu "
+                        f"half of every off-diagonal cotangent is thrown away, so the gradients of everything the matrix is built from are wrong while the value is right")
                 continue
             if kind == 'value-branch':
                 cmp_ = next(x for x in ast.walk(node) if isinstance(x, ast.Compare))
